@@ -22,7 +22,7 @@
 EXTENDS Integers, Sequences, FiniteSets, TLC, Json, IOUtils
 
 Log == ndJsonDeserialize(IOEnv.TRACE)
-MaxR == 40
+MaxR == 256
 
 VARIABLES inv,      \* the invoke record of the current invocation
           known,    \* [0..MaxR -> replica record or unseen] for the current configuration group
